@@ -2,12 +2,12 @@
 //! argument (or stdin), executes them against the real unimock crate and
 //! prints one observation line per event.  Format: see /verif/gen/cases.py.
 
+mod interp;
 mod inventory;
 mod walk;
 
-use inventory::*;
+use interp::Event;
 use std::io::{BufRead, Write};
-use std::panic::{catch_unwind, AssertUnwindSafe};
 use unimock::verif::DynClause;
 use unimock::*;
 
@@ -44,23 +44,6 @@ pub enum Opener {
 enum Term {
     Call(u32, Opener, Pat),
     Stub(u32, Vec<Pat>),
-}
-
-#[derive(Clone, Debug)]
-enum Base {
-    Call(usize, u32, u8),
-    Clone(usize),
-    Drop(usize),
-    Verify(usize),
-    Nvid(usize),
-    Report(usize),
-}
-
-#[derive(Clone, Debug)]
-struct Event {
-    other: bool,
-    unwinding: bool,
-    base: Base,
 }
 
 struct Case {
@@ -161,162 +144,13 @@ fn parse_case(line: &str) -> Case {
     let nev: usize = t.num();
     let mut events = vec![];
     for _ in 0..nev {
-        let tok = t.next();
-        let (flags, rest) = tok.split_once(':').expect("event");
-        let parts: Vec<&str> = rest.split(':').collect();
-        let ix = |k: usize| parts[k].parse::<usize>().expect("event number");
-        let base = match parts[0] {
-            "call" => Base::Call(ix(1), ix(2) as u32, ix(3) as u8),
-            "clone" => Base::Clone(ix(1)),
-            "drop" => Base::Drop(ix(1)),
-            "verify" => Base::Verify(ix(1)),
-            "nvid" => Base::Nvid(ix(1)),
-            "report" => Base::Report(ix(1)),
-            other => panic!("bad event {other}"),
-        };
-        events.push(Event {
-            other: flags.contains('o'),
-            unwinding: flags.contains('u'),
-            base,
-        });
+        events.push(interp::parse_event(t.next()));
     }
     Case {
         id,
         partial,
         terms,
         events,
-    }
-}
-
-fn panic_text(payload: Box<dyn std::any::Any + Send>) -> String {
-    if let Some(s) = payload.downcast_ref::<String>() {
-        s.clone()
-    } else if let Some(s) = payload.downcast_ref::<&'static str>() {
-        s.to_string()
-    } else {
-        "<non-string panic payload>".to_string()
-    }
-}
-
-fn esc(s: &str) -> String {
-    s.replace('\n', "\\n")
-}
-
-fn obs<R>(r: std::thread::Result<R>, show: impl FnOnce(R) -> String) -> String {
-    match r {
-        Ok(v) => show(v),
-        Err(p) => format!("P:{}", esc(&panic_text(p))),
-    }
-}
-
-fn do_call(u: &Unimock, m: u32, a: u8) -> String {
-    match m {
-        0 => u.m0(a).0,
-        1 => u.m1(a).0,
-        2 => u.m2(a).0,
-        3 => u.m3(a).0,
-        4 => u.m4(a).0,
-        5 => u.m5(a).0,
-        6 => <Unimock as G<u8>>::g(u, a).0,
-        7 => <Unimock as G<u16>>::g(u, a).0,
-        _ => panic!("harness: no such method {m}"),
-    }
-}
-
-fn show_val(s: String) -> String {
-    if s.is_empty() {
-        "rdefault".to_string()
-    } else {
-        s
-    }
-}
-
-fn run_base(slots: &mut Vec<Option<Unimock>>, unwinding: bool, base: &Base) -> String {
-    let alive = |slots: &Vec<Option<Unimock>>, i: usize| i < slots.len() && slots[i].is_some();
-    match *base {
-        Base::Call(i, m, a) => {
-            if !alive(slots, i) {
-                return "invalid".into();
-            }
-            let u = slots[i].as_ref().unwrap();
-            obs(catch_unwind(AssertUnwindSafe(|| do_call(u, m, a))), show_val)
-        }
-        Base::Clone(i) => {
-            if !alive(slots, i) {
-                return "invalid".into();
-            }
-            let c = slots[i].as_ref().unwrap().clone();
-            slots.push(Some(c));
-            "ok".into()
-        }
-        Base::Drop(i) => {
-            if !alive(slots, i) {
-                return "invalid".into();
-            }
-            let u = slots[i].take().unwrap();
-            if unwinding {
-                obs(
-                    catch_unwind(AssertUnwindSafe(move || {
-                        let _guard = u;
-                        panic!("user");
-                    })),
-                    |()| "ok".into(),
-                )
-            } else {
-                obs(catch_unwind(AssertUnwindSafe(move || drop(u))), |()| {
-                    "ok".into()
-                })
-            }
-        }
-        Base::Verify(i) => {
-            if !alive(slots, i) {
-                return "invalid".into();
-            }
-            let u = slots[i].take().unwrap();
-            obs(catch_unwind(AssertUnwindSafe(move || u.verify())), |()| {
-                "ok".into()
-            })
-        }
-        Base::Nvid(i) => {
-            if !alive(slots, i) {
-                return "invalid".into();
-            }
-            let u = slots[i].take().unwrap();
-            match catch_unwind(AssertUnwindSafe(move || u.no_verify_in_drop())) {
-                Ok(u) => {
-                    slots[i] = Some(u);
-                    "ok".into()
-                }
-                Err(p) => format!("P:{}", esc(&panic_text(p))),
-            }
-        }
-        Base::Report(i) => {
-            if !alive(slots, i) {
-                return "invalid".into();
-            }
-            let u = slots[i].take().unwrap();
-            #[cfg(feature = "std-build")]
-            {
-                use std::process::{ExitCode, Termination};
-                obs(
-                    catch_unwind(AssertUnwindSafe(move || u.report())),
-                    |code: ExitCode| {
-                        if format!("{code:?}") == format!("{:?}", ExitCode::SUCCESS) {
-                            "exit:SUCCESS".into()
-                        } else if format!("{code:?}") == format!("{:?}", ExitCode::FAILURE) {
-                            "exit:FAILURE".into()
-                        } else {
-                            format!("exit:{code:?}")
-                        }
-                    },
-                )
-            }
-            #[cfg(not(feature = "std-build"))]
-            {
-                drop(u);
-                "unsupported".into()
-            }
-        }
     }
 }
 
@@ -332,60 +166,23 @@ fn build_clause(terms: &[Term]) -> Result<DynClause, String> {
 }
 
 fn run_case(case: &Case, out: &mut impl Write) {
-    let clause = match build_clause(&case.terms) {
-        Ok(c) => c,
-        Err(e) => {
-            writeln!(out, "illtyped {e}").unwrap();
-            return;
-        }
-    };
+    if let Err(e) = build_clause(&case.terms) {
+        writeln!(out, "illtyped {e}").unwrap();
+        return;
+    }
     let partial = case.partial;
-    let made = catch_unwind(AssertUnwindSafe(move || {
-        if partial {
-            Unimock::new_partial(clause)
-        } else {
-            Unimock::new(clause)
-        }
-    }));
-    let u = match made {
-        Ok(u) => u,
-        Err(p) => {
-            writeln!(out, "new:P:{}", esc(&panic_text(p))).unwrap();
-            return;
-        }
-    };
-    writeln!(out, "new:ok").unwrap();
-    let mut slots: Vec<Option<Unimock>> = vec![Some(u)];
-    for ev in &case.events {
-        let line = if ev.other {
-            let slots_ref = &mut slots;
-            std::thread::scope(|s| {
-                s.spawn(move || run_base(slots_ref, ev.unwinding, &ev.base))
-                    .join()
-                    .unwrap_or_else(|p| format!("THREAD-PANIC:{}", esc(&panic_text(p))))
-            })
-        } else {
-            run_base(&mut slots, ev.unwinding, &ev.base)
-        };
-        writeln!(out, "{line}").unwrap();
-    }
-    // leftovers: clones first, everything under catch_unwind, not observed
-    for i in (0..slots.len()).rev() {
-        if let Some(u) = slots[i].take() {
-            let _ = catch_unwind(AssertUnwindSafe(move || drop(u.no_verify_in_drop_if_original())));
-        }
-    }
-}
-
-trait Leftover {
-    fn no_verify_in_drop_if_original(self) -> Self;
-}
-impl Leftover for Unimock {
-    fn no_verify_in_drop_if_original(self) -> Self {
-        // a clone panics in no_verify_in_drop (and is consumed); keep it simple:
-        // just let it drop; the original's verification panic is swallowed by the caller
-        self
-    }
+    interp::run_events(
+        || {
+            let clause = build_clause(&case.terms).expect("built before");
+            if partial {
+                Unimock::new_partial(clause)
+            } else {
+                Unimock::new(clause)
+            }
+        },
+        &case.events,
+        out,
+    );
 }
 
 fn main() {
